@@ -2,6 +2,7 @@ import Grass.Selector
 import GrassProofs.Lemmas.SelSem
 import GrassProofs.Lemmas.SelWalk
 import GrassProofs.Lemmas.SelPseudo
+import GrassProofs.Lemmas.SelParse
 /-
   C11 — Selector functions are sound with respect to element matching.
 
@@ -279,12 +280,53 @@ example : selectorAppend [[[.compound [.type ['a']]], [.compound [.cls ['y']]]],
 
 /-! ### parser / printer of the driver's selector syntax -/
 
-/-- Round trip of the model's printer and parser — the exact statement, NOT proved in this cut
-    (a character-level proof over the fuelled recursive-descent parser is growth work).  `wfNames`
-    would restrict names to identifiers.  The check evaluates this equation on every selector it
-    generates (`sel parse` followed by `sel eqast`), and the examples below are kernel-checked. -/
-def C11_parse_print_roundtrip_statement (wfNames : SelList → Prop) : Prop :=
-  ∀ (l : SelList), wfNames l → (∀ x ∈ l, (fwd x).isSome = true) → parseSelList (renderList l) = some l
+/-- **printer / parser round trip**, selectors without selector pseudos: for every well-formed
+    list (`wfL`: non-empty list of non-empty complexes — stray, leading and doubled combinators
+    allowed —, compounds that start with any simple selector and continue with non-type ones,
+    names that are identifiers, attribute selectors `[n]` / `[n=ident]`) the parser reads back
+    exactly what the printer wrote, with the fuel `parseSelList` itself computes.
+    PARTIAL: selector pseudos (`:not(..)` …, which need the nested induction through `normAll`),
+    `&`, quoted attribute values and modifiers are not covered — see the statement below; those
+    are still evaluated at run time on every generated selector (`sel parse` + `sel eqast`). -/
+theorem C11_parse_print_roundtrip_partial (l : SelList) (hl : wfL l) : parseSelList (renderList l) = some l :=
+  parse_render l hl
+
+/-- the full round-trip statement (open): `wf` would extend `wfL` to selector pseudos whose
+    arguments are well-formed in normal form, `&` with suffix, and every attribute value the
+    parser accepts -/
+def C11_parse_print_roundtrip_full (wf : SelList → Prop) : Prop :=
+  ∀ (l : SelList), wf l → parseSelList (renderList l) = some l
+
+example : wfL [[.compound [.type ['a'], .cls ['x'], .attr ['t'] (some ['v'])], .comb .child, .comb .next,
+    .compound [.univ, .id ['i'], .pclass ['h'], .pelem ['b', 'e']]], [.compound [.placeholder ['p']]]] := by
+  refine ⟨by simp, ?_⟩
+  intro x hx
+  simp only [List.mem_cons, List.mem_singleton, List.not_mem_nil, or_false] at hx
+  rcases hx with rfl | rfl
+  · refine ⟨?_, by simp⟩
+    intro c hc
+    simp only [List.mem_cons, Component.compound.injEq, List.not_mem_nil, or_false, reduceCtorEq, false_or] at hc
+    have vn : ∀ (c0 : Char) (cs : List Char), isIdentStart c0 = true → (c0 :: cs).all isIdentChar = true → validName (c0 :: cs) :=
+      fun c0 cs h1 h2 => ⟨⟨c0, cs, rfl, h1⟩, h2⟩
+    rcases hc with rfl | rfl
+    · refine ⟨vn _ _ (by decide) (by decide), ?_⟩
+      intro t ht
+      simp only [List.mem_cons, List.not_mem_nil, or_false] at ht
+      rcases ht with rfl | rfl
+      · exact ⟨vn _ _ (by decide) (by decide), trivial⟩
+      · exact ⟨⟨vn _ _ (by decide) (by decide), vn _ _ (by decide) (by decide)⟩, trivial⟩
+    · refine ⟨trivial, ?_⟩
+      intro t ht
+      simp only [List.mem_cons, List.not_mem_nil, or_false] at ht
+      rcases ht with rfl | rfl | rfl
+      · exact ⟨vn _ _ (by decide) (by decide), trivial⟩
+      · exact ⟨⟨vn _ _ (by decide) (by decide), by decide⟩, trivial⟩
+      · exact ⟨vn _ _ (by decide) (by decide), trivial⟩
+  · refine ⟨?_, by simp⟩
+    intro c hc
+    simp only [List.mem_singleton, Component.compound.injEq] at hc
+    subst hc
+    exact ⟨⟨⟨_, _, rfl, by decide⟩, by decide⟩, by intro t ht; simp at ht⟩
 
 private def rtSample : SelList :=
   [[.compound [.type ['a'], .cls ['x']], .comb .child,
